@@ -11,7 +11,8 @@ Definition of_payload (p : payload) : wtree :=
   W 94 [match pl_data p with Some _ => 1 | None => 0 end; if pl_nested p then 1 else 0]
        [of_path (pl_path p); W 5 [] (map (fun c => W 96 [] (map of_node c)) (pl_groups p));
         of_json (JObj (match pl_data p with Some kvs => kvs | None => [] end));
-        W 5 [] (map of_err (pl_errs p)); W 5 [] (map of_call (pl_calls p))].
+        W 5 [] (map of_err (pl_errs p)); W 5 [] (map of_call (pl_calls p));
+        W 5 [] (map (of_str 0) (pl_keys p))].
 
 Definition of_dresponse (r : dresponse) : wtree :=
   match r with
@@ -45,6 +46,9 @@ Definition run (inp : list N) : list N :=
             end
         | _ => [2]
         end
+      else if op =? 5 then enc_tree (of_dresponse (dexecute_np s d vars root))
+      else if op =? 6 then enc_tree (of_dresponse (dexecute_raw s d vars root))
+      else if op =? 7 then enc_tree (of_dresponse (dexecute_np_incremental s d vars root))
       else if op =? 0 then enc_tree w
       else bad
     end
